@@ -23,6 +23,9 @@ enum P {
     Tuple(Vec<P>),
     Struct { si: usize, fields: Vec<(usize, P)>, rest: bool },
     Enum { ei: usize, vi: usize, ps: Vec<P> },
+    /// a number / range pattern (printed as given) that does not fit the scrutinee's integer type or
+    /// carries the suffix of another type: the program must be rejected
+    IllTyped(String),
 }
 
 fn lit(t: IntTy, v: i128, suffix: bool) -> String {
@@ -36,6 +39,7 @@ fn lit(t: IntTy, v: i128, suffix: bool) -> String {
 fn show(p: &P, t: &Ty, d: &Defs) -> String {
     match (p, t) {
         (P::Wild, _) => "_".into(),
+        (P::IllTyped(text), _) => text.clone(),
         (P::Bind(n), _) => n.clone(),
         (P::Bool(b), _) => b.to_string(),
         (P::Int { v, suffix }, Ty::Int(it)) => lit(*it, *v, *suffix),
@@ -72,6 +76,7 @@ fn show(p: &P, t: &Ty, d: &Defs) -> String {
 fn matches(p: &P, v: &Val, binds: &mut Vec<(String, Val)>) -> bool {
     match (p, v) {
         (P::Wild, _) => true,
+        (P::IllTyped(_), _) => false,
         (P::Bind(n), _) => {
             binds.push((n.clone(), v.clone()));
             true
@@ -248,6 +253,8 @@ struct G<'a> {
     rng: &'a mut Rng,
     d: Defs,
     next: usize,
+    ill_typed_allowed: bool,
+    has_ill_typed: bool,
 }
 
 impl G<'_> {
@@ -324,6 +331,25 @@ impl G<'_> {
         }
         match t {
             Ty::Bool => P::Bool(self.rng.bool()),
+            Ty::Int(it) if self.ill_typed_allowed && self.rng.chance(1, 30) => {
+                // outside the range of the type (no suffix, so only the value is wrong), or in range but
+                // with the suffix of another integer type
+                let others = [ints::U8, ints::U16, ints::U32, ints::U64, ints::USIZE, ints::I8, ints::I16, ints::I32, ints::I64];
+                let text = match self.rng.below(4) {
+                    0 if it.bits < 64 => (it.max_val() + 1 + self.rng.below(3) as i128).to_string(),
+                    1 if it.signed && it.bits < 64 => (it.min_val() - 1).to_string(),
+                    2 if it.bits < 64 => format!("{}..={}", it.max_val() - 1, it.max_val() + 1),
+                    _ => {
+                        let o = *self.rng.pick(&others);
+                        if o.name() == it.name() {
+                            return P::Wild;
+                        }
+                        o.lit(self.rng.below(100) as i128)
+                    }
+                };
+                self.has_ill_typed = true;
+                P::IllTyped(text)
+            }
             Ty::Int(it) => {
                 if self.rng.chance(2, 5) {
                     let v = self.bound(*it);
@@ -427,7 +453,7 @@ struct St {
 }
 
 fn one_case(ctx: &Ctx, rng: &mut Rng, st: &mut St) {
-    let mut g = G { rng, d: Defs::default(), next: 0 };
+    let mut g = G { rng, d: Defs::default(), next: 0, ill_typed_allowed: true, has_ill_typed: false };
     let depth = g.rng.weighted(&[4, 4, 2, 1]) as u32;
     let t = g.gen_ty(depth);
     if t.bits(&g.d) == 0 {
@@ -441,6 +467,7 @@ fn one_case(ctx: &Ctx, rng: &mut Rng, st: &mut St) {
         let pos = g.rng.usize_below(arms.len() + 1);
         arms.insert(pos, p);
     }
+    let has_ill_typed = g.has_ill_typed;
     let d = g.d.clone();
     let mut src = defs_text(&d);
     src += &format!("pub fn main(x: {}) -> (u8, u64) {{\n    match x {{\n", t.show(&d));
@@ -482,6 +509,15 @@ fn one_case(ctx: &Ctx, rng: &mut Rng, st: &mut St) {
     let r = catch(|| garble_lang::check(&src));
     let case = json!({"program": src});
     st.distinct.insert(crate::util::fnv(src.as_bytes()));
+    if has_ill_typed {
+        // a number pattern that does not fit the scrutinee type / has another type: static error
+        match r {
+            Err(p) => ctx.violation(&format!("type checker panicked on a match with an ill-typed number pattern: {p}"), case),
+            Ok(Ok(_)) => ctx.violation("a match with a number pattern that does not fit (or has another type than) the matched integer type is accepted", case),
+            Ok(Err(_)) => st.counts.inc(&format!("{type_kind}: ill-typed number pattern rejected")),
+        }
+        return;
+    }
     match r {
         Err(p) => {
             st.counts.inc(&format!("{type_kind}: checker crashed"));
